@@ -29,18 +29,27 @@ Definition lookup_ctrl (t : list (Z * option Z)) (c : Z) : option (option Z) :=
 Definition xterm_mods (m : Z) : Z :=
   Z.lor (Z.lor (Z.land m ModShift) (Z.land m ModAlt)) (Z.land m ModCtrl).
 
-(* the part of encodeXterm that runs when no Shift/Alt/Ctrl is held; None = falls through *)
-Definition encode_plain (code : Z) (deckpam decckm : bool) : option (list Z) :=
+(* the part of encodeXterm that runs when no Shift/Alt/Ctrl is held; None = falls through.
+   First the three table lookups (function keys, cursor keys by DECCKM, keypad block by DECKPAM) ... *)
+Definition encode_plain_maps (code : Z) (deckpam decckm : bool) : option (list Z) :=
   match lookup_str keymap code with
   | Some v => Some v
   | None =>
   match lookup_str (if decckm then cursorKeysApplicationMode else cursorKeysNormalMode) code with
   | Some v => Some v
-  | None =>
-  match lookup_str (if deckpam then applicationKeymap else numericKeymap) code with
+  | None => lookup_str (if deckpam then applicationKeymap else numericKeymap) code
+  end end.
+
+(* ... then the text the key produced, else the key code *)
+Definition encode_plain (k : key) (deckpam decckm : bool) : option (list Z) :=
+  match encode_plain_maps (k_code k) deckpam decckm with
   | Some v => Some v
-  | None => if code <? MaxRune then Some (utf8_enc code) else None
-  end end end.
+  | None =>
+      match k_text k with
+      | _ :: _ => Some (utf8 (k_text k))
+      | [] => if k_code k <? MaxRune then Some (utf8_enc (k_code k)) else None
+      end
+  end.
 
 (* the bytes.Buffer part: Alt prefix, Ctrl mapping, Shift *)
 Definition encode_buf (u : uni) (k : key) (xm : Z) : list Z :=
@@ -62,7 +71,7 @@ Definition encode_buf (u : uni) (k : key) (xm : Z) : list Z :=
 Definition encode_xterm (u : uni) (k : key) (deckpam decckm : bool) : list Z :=
   let code := k_code k in
   let xm := xterm_mods (k_mods k) in
-  match (if xm =? 0 then encode_plain code deckpam decckm else None) with
+  match (if xm =? 0 then encode_plain k deckpam decckm else None) with
   | Some v => v
   | None =>
       if (code =? KeyTab) && (xm =? ModShift) then [27; 91; 90]
@@ -206,18 +215,21 @@ Definition chord_shift (u : uni) (k : key) : bool :=
 Definition alt_char (c : Z) : bool :=
   in_range c 48 127 && negb ((c =? 79) || (c =? 80) || (c =? 88) || (c =? 91) || (c =? 93) || (c =? 94) || (c =? 95)).
 Definition chord_alt (k : key) : bool := (chord_mods k =? ModAlt) && alt_char (k_code k).
-(* (d) Ctrl + a letter whose C0 code is not also Backspace (h), Tab (i) or Enter (m) *)
+(* (d) Ctrl + a letter whose C0 code is not also Backspace (h), Tab (i) or Enter (m); Ctrl + @ \ ] ^ _ *)
 Definition ctrl_letter (c : Z) : bool :=
   in_range c 97 122 && negb ((c =? 104) || (c =? 105) || (c =? 109)).
-Definition chord_ctrl (k : key) : bool := (chord_mods k =? ModCtrl) && ctrl_letter (k_code k).
+Definition ctrl_char (c : Z) : bool := ctrl_letter c || (c =? 64) || in_range c 92 95.
+Definition chord_ctrl (k : key) : bool := (chord_mods k =? ModCtrl) && ctrl_char (k_code k).
 (* (e) a special key of xtermKeymap with any combination of Shift/Alt/Ctrl *)
 Definition special_keys : list Z := map fst xtermKeymap.
 Definition chord_special (k : key) : bool :=
   existsb (Z.eqb (k_code k)) special_keys && in_range (chord_mods k) 0 7.
-(* (f) Tab, Enter, Esc, Backspace unmodified; Shift+Tab (back-tab); Alt+Backspace is in (c) *)
+(* (f) Tab, Enter, Esc, Backspace unmodified (they carry no text); Shift+Tab (back-tab); Alt+Backspace is in (c) *)
+Definition no_text (k : key) : bool := match k_text k with [] => true | _ => false end.
 Definition chord_c0 (k : key) : bool :=
-  ((chord_mods k =? 0) && ((k_code k =? KeyTab) || (k_code k =? KeyEnter) || (k_code k =? KeyEsc) || (k_code k =? KeyBackspace)))
-  || ((chord_mods k =? ModShift) && (k_code k =? KeyTab) && (match k_text k with [] => true | _ => false end)).
+  no_text k &&
+  (((chord_mods k =? 0) && ((k_code k =? KeyTab) || (k_code k =? KeyEnter) || (k_code k =? KeyEsc) || (k_code k =? KeyBackspace)))
+   || ((chord_mods k =? ModShift) && (k_code k =? KeyTab))).
 
 Definition xterm_expressible (u : uni) (k : key) : bool :=
   mods_in_scope k &&
@@ -239,6 +251,35 @@ Definition text_ok (k : key) (evs : list hevent) : bool :=
   | [HKey k'] => zlist_eqb (k_text k') (k_text k)
   | _ => false
   end.
+
+(* Any key that produced one printable code point of text with at most Shift held (Caps Lock, AltGr,
+   compose, Shift+digit ...): the text arrives, and the event matches the text rune without modifiers
+   (the key code itself is not expressible: the legacy encoding sends the character) *)
+Definition chord_text (k : key) : bool :=
+  ((chord_mods k =? 0) || (chord_mods k =? ModShift)) && printable_rune (k_code k) &&
+  match k_text k with
+  | [t] => printable_rune t && negb (t =? 127)
+  | _ => false
+  end.
+Definition textchord_ok (u : uni) (k : key) (evs : list hevent) : bool :=
+  match evs, k_text k with
+  | [HKey k'], [t] => zlist_eqb (k_text k') [t] && matches u k' t 0 && (k_event k' =? EventPress)
+  | _, _ => false
+  end.
+
+(* the C0 code xterm sends for Ctrl + an ASCII character (xterm ctlseqs / VT220), written by hand *)
+Definition xterm_ctrl_code (c : Z) : option Z :=
+  if (c =? 32) || (c =? 50) then Some 0
+  else if in_range c 51 55 then Some (c - 24)
+  else if (c =? 47) then Some 31
+  else if (c =? 56) || (c =? 63) then Some 127
+  else if in_range c 64 95 then Some (c - 64)
+  else if in_range c 97 122 then Some (c - 96)
+  else None.
+Definition ctrl_code_ok (k : key) (bytes : list Z) : bool :=
+  if chord_mods k =? ModCtrl then
+    match xterm_ctrl_code (k_code k) with Some b => zlist_eqb bytes [b] | None => true end
+  else true.
 
 (* cursor keys: the standard finals (VT100 / xterm), written by hand *)
 Definition cursor_finals : list (Z * Z) :=
@@ -308,6 +349,8 @@ Definition c13_key_violations (cases : list key_case) : list Z :=
     let '(t, segs, ops, k, pause, md, bytes, evs) := c in
     let u := uni_of t in
     negb (cursor_mode_ok k (m_decckm md) bytes)
+    || (mods_in_scope k && negb (ctrl_code_ok k bytes))
+    || (mods_in_scope k && chord_text k && match evs with Some evs => negb (textchord_ok u k evs) | None => true end)
     || (xterm_expressible u k &&
         match evs with
         | Some evs => negb (roundtrip_ok u k evs)
@@ -360,3 +403,26 @@ Definition c13_mouse_violations (cases : list mouse_case) : list Z :=
         else negb (zlist_eqb bytes [])
     | _ => false
     end) cases.
+
+(* keypad stream: (oracle table, key, DECCKM, bytes written under DECKPNM, bytes written under DECKPAM).
+   The property as written: for a keypad key the child's keypad mode selects the encoding, i.e. the
+   application-keypad encoding differs from the numeric one. *)
+Definition keypad_case := (utab * key * bool * list Z * list Z)%type.
+
+Definition is_keypad_key (c : Z) : bool := in_range c KeyKeyPad0 KeyKeyPadBegin.
+Definition keypad_guard (k : key) : bool := is_keypad_key (k_code k) && (xterm_mods (k_mods k) =? 0).
+
+Definition c13_keypad_mismatches (cases : list keypad_case) : list Z :=
+  bad_indices (fun c =>
+    let '(t, k, ck, bn, ba) := c in
+    let u := uni_of t in
+    negb (key_covered t k (bn ++ ba))
+    || negb (zlist_eqb (encode_xterm u k false ck) bn)
+    || negb (zlist_eqb (encode_xterm u k true ck) ba)) cases.
+
+Definition c13_keypad_violations (cases : list keypad_case) : list Z :=
+  bad_indices (fun c => let '(t, k, ck, bn, ba) := c in keypad_guard k && zlist_eqb bn ba) cases.
+
+(* the cases under the guard of the recorded finding keypad-mode-ignored *)
+Definition c13_keypad_known (cases : list keypad_case) : list Z :=
+  bad_indices (fun c => let '(t, k, ck, bn, ba) := c in keypad_guard k) cases.
